@@ -1,5 +1,6 @@
 mod admin;
 mod inst;
+mod perm;
 mod raw;
 mod report;
 mod rng;
